@@ -708,5 +708,74 @@ example : generalKinds [.string, .number, .bool] = true := by decide
 example : (unify (Env.std Env.simple) 2 [.set .bool, .list .string]).map (fun o => o.map (·.1)) =
     .ok (some (.list .string)) := rfl
 
+/-! ## The composed closures without the side condition on the intermediate value
+
+C08's well-typedness preservation (`Convert.apply_wt`, Lemmas/ConvertD08WT.lean: the result of a
+successful conversion of a well-typed value to a placeholder-free target is well typed, and
+wholly known if the input is) discharges the side condition "the value the first step hands
+to the second is `Value.wt` / wholly known" of the `…_slots_partial` theorems above. -/
+
+/-- what the first step of a composed closure hands on: well typed; wholly known if the input is -/
+theorem first_step_well_typed (E : Env) (hU : UnifyLaws E) (fuel' : Nat) (uns : Bool) (t : Ty) (c : UConv)
+    (v : Value) (hrel : SlotRel E uns t v.ty (some c)) (hv : Value.wt v = true)
+    (hT : ∀ m ∈ stepTargets c, plainTy m = true) :
+    ∀ f s out, c = .andThen (some f) s → applyU E fuel' f v = .ok out →
+      Value.wt out = true ∧ (Payload.whollyKnown v.v = true → Payload.whollyKnown out.v = true) := by
+  intro f s out hc ha
+  cases hrel with
+  | direct hs =>
+    obtain ⟨_, p, rfl, _⟩ := direct_plan hs
+    simp at hc
+  | allDyn _ => simp at hc
+  | viaEq _ _ _ => simp at hc
+  | composed hsc he hp hq =>
+    rename_i mid p q
+    simp only [UConv.andThen.injEq, Option.some.injEq] at hc
+    obtain ⟨rfl, rfl⟩ := hc
+    obtain ⟨c0, _, rfl⟩ := Option.map_eq_some_iff.mp hp
+    have hm : plainTy mid = true := hT mid (by simp [stepTargets])
+    obtain ⟨hw, _, hdn⟩ := plainTy_parts hm
+    exact apply_wt hU ⟨hv, hw, hdn⟩ hp ha
+
+/-- `convs_yield_unified_slots_partial` with the side condition on the intermediate value discharged:
+every slot `unify` returns, direct or composed, applied to any well-typed value of its input
+type yields — if it yields a value — a value of exactly the unified type. -/
+theorem convs_yield_unified_slots_wt_partial (E : Env) (hU : UnifyLaws E) (fuel fuel' : Nat) (uns : Bool)
+    (types : List Ty) (t : Ty) (cs : Convs) (i : Nat) (c : UConv) (v r : Value) (ht : plainTy t = true)
+    (h : unifyF E fuel uns types = .ok (some (t, cs))) (hc : cs[i]? = some (some c)) (hi : types[i]? = some v.ty)
+    (hv : Value.wt v = true) (hT : ∀ m ∈ stepTargets c, plainTy m = true)
+    (ha : applyU E fuel' c v = .ok r) : r.ty = t ∧ yieldsUnified t r = true := by
+  obtain ⟨c', hc', hrel⟩ := (unifyF_slots E fuel uns types t cs h).2 i v.ty hi
+  rw [hc] at hc'; simp only [Option.some.injEq] at hc'; subst hc'
+  exact convs_yield_unified_slots_partial E hU fuel fuel' uns types t cs i c v r ht h hc hi hv hT
+    (fun f s out e h1 => (first_step_well_typed E hU fuel' uns t c v hrel hv hT f s out e h1).1) ha
+
+/-- `safe_convs_total_slots_partial` with the side condition discharged. -/
+theorem safe_convs_total_slots_wt_partial (E : Env) (hU : UnifyLaws E) (hS : SetLaws E) (fuel fuel' : Nat)
+    (types : List Ty) (t : Ty) (cs : Convs) (i : Nat) (c : UConv) (v : Value) (ht : plainTy t = true)
+    (h : unify E fuel types = .ok (some (t, cs))) (hc : cs[i]? = some (some c)) (hi : types[i]? = some v.ty)
+    (hv : Value.wt v = true) (hk : Payload.whollyKnown v.v = true)
+    (hT : ∀ m ∈ stepTargets c, plainTy m = true) :
+    (∃ r, applyU E fuel' c v = .ok r ∧ r.ty = t) ∨ applyU E fuel' c v = .unmodelled := by
+  obtain ⟨c', hc', hrel⟩ := (unifyF_slots E fuel false types t cs h).2 i v.ty hi
+  rw [hc] at hc'; simp only [Option.some.injEq] at hc'; subst hc'
+  exact safe_convs_total_slots_partial E hU hS fuel fuel' types t cs i c v ht h hc hi hv hk hT
+    (fun f s out e h1 =>
+      let w := first_step_well_typed E hU fuel' false t c v hrel hv hT f s out e h1
+      ⟨w.1, w.2 hk⟩)
+
+/-- `no_panic_applied_slots_partial` with the side condition discharged. -/
+theorem no_panic_applied_slots_wt_partial (E : Env) (hU : UnifyLaws E) (hS : SetLaws E) (fuel fuel' : Nat)
+    (uns : Bool) (types : List Ty) (t : Ty) (cs : Convs) (i : Nat) (c : UConv) (v : Value) (ht : plainTy t = true)
+    (h : unifyF E fuel uns types = .ok (some (t, cs))) (hc : cs[i]? = some (some c)) (hi : types[i]? = some v.ty)
+    (hv : Value.wt v = true) (hk : Payload.whollyKnown v.v = true)
+    (hT : ∀ m ∈ stepTargets c, plainTy m = true) : (applyU E fuel' c v).isPanic = false := by
+  obtain ⟨c', hc', hrel⟩ := (unifyF_slots E fuel uns types t cs h).2 i v.ty hi
+  rw [hc] at hc'; simp only [Option.some.injEq] at hc'; subst hc'
+  exact no_panic_applied_slots_partial E hU hS fuel fuel' uns types t cs i c v ht h hc hi hv hk hT
+    (fun f s out e h1 =>
+      let w := first_step_well_typed E hU fuel' uns t c v hrel hv hT f s out e h1
+      ⟨w.1, w.2 hk⟩)
+
 end C09
 end CtyModel
